@@ -446,6 +446,9 @@ func ConcResEq(a, b ConcRes) bool { return And(a.V == b.V, a.OK == b.OK, a.Pan =
 // ConcProgram chooses the calls of each thread: shape 0 = 2 threads x 1 call (unordered pair of
 // kinds), 1 = 3 x 1 (unordered triple), 2 = 2 x 2.
 func ConcProgram(shape int, kinds []int) [][]ConcCall {
+	if shape >= 1 && len(kinds) > 4 {
+		kinds = kinds[:4] // the larger programs use the four principal operations
+	}
 	mk := func() ConcCall {
 		c := ConcCall{K: kinds[Choice(len(kinds))], X: Int(), Y: Int()}
 		if ConcSelectors > 1 {
@@ -483,7 +486,12 @@ func ConcKeys(pre []int, prog [][]ConcCall) []int {
 }
 
 // ConcShape: quick = pairs only; thorough = pairs, triples, 2x2.
-func ConcShape() int { return Choice(Pick(1, 3)) }
+func ConcShape() int { return Choice(Pick(1, ConcShapes)) }
+
+// ConcShapes: how many program shapes the thorough tier explores for the type at hand (3 = pairs,
+// triples and 2x2; 2 = pairs and triples; 1 = pairs only). Set by the harness; the larger shapes
+// draw their calls from the first four operation kinds only.
+var ConcShapes = 3
 
 // ConcCheck runs prog concurrently on mk() under every schedule and checks: no call panics, no
 // lock is left held, (lin) the results and the observable contents equal those of some sequential
